@@ -24,12 +24,49 @@ def constants(repo):
     return c
 
 
+def size_expr(text, names, what):
+    """a C size expression over the given lvalues, + * ( ) and decimal literals -> Gallina over Z; anything else raises"""
+    toks = re.findall(r'sizeof\(\*?[a-z]+\)|[A-Za-z_][A-Za-z_0-9]*(?:(?:->|\.)[A-Za-z_][A-Za-z_0-9]*)*|\d+|[-+*/()%]|\S', text)
+    out = []
+    for t in toks:
+        if t in names:
+            out.append(names[t])
+        elif t in '+*()':
+            out.append(t)
+        elif t.isdigit():
+            out.append(t)
+        else:
+            raise ValueError('%s: token %r in %r is outside the supported size expressions' % (what, t, text))
+    return ' '.join(out)
+
+
+def old_sizes(repo):
+    """the 'old size' argument the containers pass to their realloc callback (arena_realloc copies exactly that many bytes)"""
+    rd = lambda f: open(os.path.join(repo, 'libks', f)).read()
+    vec, buf = rd('vector.c'), rd('buffer.c')
+    arg = one(vec, r'vc->vc_callbacks\.realloc\(vc,\s*([^,]+),\s*totlen,', 'vector.c realloc callback call')
+    if arg.strip() != 'oldlen':
+        raise ValueError('vector.c: realloc callback is passed %r as old size, expected the local oldlen' % arg)
+    rhs = one(vec, r'^\s*oldlen = ([^;]+);', 'vector.c oldlen')
+    vnames = {'sizeof(*vc)': 'hdr', 'vc->p.len': 'len', 'vc->vc_stride': 'stride', 'vc->vc_siz': 'siz'}
+    v = size_expr(rhs, vnames, 'vector.c oldlen')
+    barg = one(buf, r'bf->bf_callbacks\.realloc\(bf->bf_ptr,\s*([^,]+),\s*newsiz,', 'buffer.c realloc callback call')
+    b = size_expr(barg, {'bf->bf_siz': 'siz', 'bf->bf_len': 'len'}, 'buffer.c realloc old size')
+    return v, b, rhs.strip(), barg.strip()
+
+
 def generate(repo):
     c = constants(repo)
     out = ['(* Gen_KsConst.v - GENERATED on every check by harness/t_ksconst.py from libks/{vector,buffer,map}.c.  Do not edit. *)',
            'From Coq Require Import ZArith.', 'Local Open Scope Z_scope.', '']
     for k in sorted(c):
         out.append('Definition %s : Z := %d.' % (k, c[k]))
+    v, b, vsrc, bsrc = old_sizes(repo)
+    vsrc, bsrc = vsrc.replace('(*', '( *').replace('*)', '* )'), bsrc.replace('(*', '( *').replace('*)', '* )')   # no comment delimiters inside the comment
+    out += ['', '(* vector_reserve1: oldlen = %s; passed as old size to vc_callbacks.realloc *)' % vsrc,
+            'Definition vector_oldlen (hdr len stride siz : Z) : Z := %s.' % v,
+            '(* buffer_reserve: bf_callbacks.realloc(bf->bf_ptr, %s, newsiz, ...) *)' % bsrc,
+            'Definition buffer_oldlen (len siz : Z) : Z := %s.' % b]
     return {'Gen_KsConst.v': '\n'.join(out) + '\n'}
 
 
